@@ -502,6 +502,14 @@ func replay() {
 		return
 	}
 	fmt.Printf("replay %+v\n", c)
+	if c.Sub == "asym" {
+		var a asymCase
+		mc.LoadReplay(chk.ReplayFile(), &a)
+		l := chk.NewLocal()
+		defer l.Merge()
+		asymOne(l, a)
+		return
+	}
 	sh := c.shape()
 	tx, ok := findText(sh, c.Text)
 	if !ok {
